@@ -68,7 +68,7 @@ ASSUMPTIONS = [
     "sorted list is unique); NaN targets excluded (finite CG iterates are monitored, not proved)",
     "numerical knobs of the generator (end-to-end stream): CG tolerance in [1e-6,1], initial approximation and cutoff distances "
     "in [0.1,100], penalty initial value in [1e-3,10] (check() only asks > 0), side margin over the whole range [0,100] that check() accepts since fix 07db192 (half of the cases at the default 0.9, a sixth of the others above 0.9) and, one case in sixteen, OUTSIDE it (-20..-0.001, 150, 1e10: refused by the check, or else everything the property states is demanded), "
-    "coarsening limit in [1,1000]; every other knob over the whole range accepted by check(): penalty.updateFactor over the open "
+    "coarsening limit in [1,1000] and, one case in eight, -5 / 0 / 1e-6 / 1e12 (no check() constrains it); every other knob over the whole range accepted by check(): penalty.updateFactor over the open "
     "interval (1,2) (2^-20 from both ends included), both distance update factors over [0.8,1.2] (ends included), gapTolerance and "
     "distanceTolerance including 0 (stop test disabled), maxNbSteps from 1 to the efforts' default 400 (40% of the cases run with "
     "400); no coupling between updateFactor and maxNbSteps",
